@@ -102,7 +102,7 @@ def run(ck):
         rc, log = common.run([ck.vh, "pipeline", "-out", ck.dir, wf])
         res = open(os.path.join(ck.dir, "pipeline.txt")).read() if os.path.exists(os.path.join(ck.dir, "pipeline.txt")) else ""
         cls = re.sub(r"[0-9]", "N", res.strip().split(";")[0].strip())
-        if re.search(k["match"]["error_class_regex"], cls):
+        if re.search(k.get("witness_class_regex") or k["match"]["error_class_regex"], cls):
             ck.known_hits[k["id"]] = ck.known_hits.get(k["id"], 0) + 1
         else:
             ck.notes.append("known finding %s no longer reproduces on its witness (stale entry): %s" % (k["id"], res[:200]))
